@@ -69,7 +69,7 @@ def run(ctx):
         open(p, "wb").write(datas[i])
         runs.append(dict(args=["hex", "encode", p], stdin=b""))
     enc = ctx.cli(runs)
-    mod_enc = ctx.model(["c19_enc %s" % pb(d) for d in datas], label="C19enc")
+    mod_enc = ctx.model(["c19_enc %s" % pb(d) if len(d) <= 8192 else "c19_enc %s" % pb(b"") for d in datas], label="C19enc")
     for i, d in enumerate(datas):
         case = dict(op="hex encode", stdin_hex=short(d), length=len(d))
         ctx.count("encode/len<=1" if len(d) <= 1 else "encode/len<=300" if len(d) <= 300 else "encode/long")
@@ -78,7 +78,8 @@ def run(ctx):
         want = b"0x" + d.hex().encode() + b"\n"
         if enc[i].cls != "ok" or enc[i].stdout != want:
             ctx.violation("encode-format", case, short(want), dict(exit=enc[i].cls, stdout=short(enc[i].stdout)))
-        cli_vs_model(ctx, "encode-vs-model", case, enc[i], mod_enc[i], stdout_of=lambda f: f[0])
+        if len(d) <= 8192:
+            cli_vs_model(ctx, "encode-vs-model", case, enc[i], mod_enc[i], stdout_of=lambda f: f[0])
     for k, i in enumerate(file_idx):
         r = enc[len(datas) + k]
         ctx.count("encode/file")
@@ -154,7 +155,9 @@ def run(ctx):
 
     runs = [dict(args=["hex", "decode"], stdin=t.encode("utf8")) for (t, _, _, _) in cases]
     dec = ctx.cli(runs)
-    mod = ctx.model(["c19_dec %s" % tx(t) for (t, _, _, _) in cases], label="C19dec")
+    small = [i for i, c in enumerate(cases) if len(c[0]) <= 12000]  # longer literals overflow coqc's parser stack; those cases keep the predicate
+    mres = dict(zip(small, ctx.model(["c19_dec %s" % tx(cases[i][0]) for i in small], label="C19dec")))
+    mod = [mres.get(i) for i in range(len(cases))]
     for (t, want, zone, cls), r, m in zip(cases, dec, mod):
         case = dict(op="hex decode", stdin_text=short(t, 80), stdin_utf8_hex=short(t.encode("utf8"), 80), cls=cls)
         ctx.count(cls)
